@@ -112,7 +112,7 @@ struct World {
 	Profile prof;
 	std::vector<Ev> events;
 	std::vector<Violation> viols;
-	std::array<Inst, 4> inst;
+	std::array<Inst, 5> inst;
 	Inst* cur = nullptr;          // instance whose API call is in progress
 	bool probe = false;           // silent query probe in progress
 	Req probeRequest;
@@ -134,6 +134,12 @@ struct World {
 	unsigned immCount = 0;
 
 	void (*readPlanHook)(Inst&) = nullptr;   // set by the driver: refresh in.actualPlan from the machine
+	// C05 "every reachable machine state": now and then the authority is copied from inside one of its own callbacks
+	// (a snapshot taken mid-processing); the driver later runs update()/react()/query() on that copy with only the C05
+	// monitors reporting (nothing else is known about such a copy)
+	void (*snapshotHook)(Inst&, Method) = nullptr;
+	bool snapPending = false;
+	bool muteExceptC05 = false;
 
 	// ---- statistics (whole process)
 	vh::Stats stats;
@@ -141,6 +147,7 @@ struct World {
 
 	// ------------------------------------------------------------------
 	void V(const char* prop, const std::string& key, const std::string& msg) {
+		if (muteExceptC05 && strcmp(prop, "C05") != 0) return;
 		if (cfg::BARE && strcmp(prop, "C16") != 0) {
 			// configurations with states that define no callback see those states only through the verbose
 			// log: an inconsistency there says the record stream and the machine disagree (C16)
